@@ -173,22 +173,49 @@ func WithRange(t *Term, lo, hi *big.Int) *Term {
 
 // ---- integer arithmetic ----
 
-func Add(xs ...*Term) *Term {
-	var flat []*Term
-	c := new(big.Int)
-	for _, x := range xs {
-		if x.Op == "+" {
-			for _, a := range x.Args {
-				if a.Op == "int" {
-					c.Add(c, a.Int)
-				} else {
-					flat = append(flat, a)
-				}
-			}
-		} else if x.Op == "int" {
-			c.Add(c, x.Int)
+// linear normal form: a sum is kept as base terms with integer coefficients (equal bases are
+// merged, zero coefficients dropped) followed by the constant.
+type linTerm struct {
+	base  *Term
+	coeff *big.Int
+}
+
+func linDecompose(x *Term, k *big.Int, acc map[int]*linTerm, order *[]int, c *big.Int) {
+	switch {
+	case x.Op == "int":
+		c.Add(c, new(big.Int).Mul(k, x.Int))
+	case x.Op == "+":
+		for _, a := range x.Args {
+			linDecompose(a, k, acc, order, c)
+		}
+	case x.Op == "-" && len(x.Args) == 1:
+		linDecompose(x.Args[0], new(big.Int).Neg(k), acc, order, c)
+	case x.Op == "-" && len(x.Args) == 2:
+		linDecompose(x.Args[0], k, acc, order, c)
+		linDecompose(x.Args[1], new(big.Int).Neg(k), acc, order, c)
+	case x.Op == "*" && len(x.Args) == 2 && x.Args[0].Op == "int":
+		linDecompose(x.Args[1], new(big.Int).Mul(k, x.Args[0].Int), acc, order, c)
+	default:
+		if lt, ok := acc[x.id]; ok {
+			lt.coeff.Add(lt.coeff, k)
 		} else {
-			flat = append(flat, x)
+			acc[x.id] = &linTerm{x, new(big.Int).Set(k)}
+			*order = append(*order, x.id)
+		}
+	}
+}
+
+func linBuild(acc map[int]*linTerm, order []int, c *big.Int) *Term {
+	var flat []*Term
+	for _, id := range order {
+		lt := acc[id]
+		if lt.coeff.Sign() == 0 {
+			continue
+		}
+		if lt.coeff.Cmp(big.NewInt(1)) == 0 {
+			flat = append(flat, lt.base)
+		} else {
+			flat = append(flat, mk("*", "", SInt, nil, IntB(lt.coeff), lt.base))
 		}
 	}
 	if c.Sign() != 0 {
@@ -203,21 +230,32 @@ func Add(xs ...*Term) *Term {
 	return mk("+", "", SInt, nil, flat...)
 }
 
-func Neg(x *Term) *Term {
-	if x.Op == "int" {
-		return IntB(new(big.Int).Neg(x.Int))
+func Add(xs ...*Term) *Term {
+	acc := map[int]*linTerm{}
+	var order []int
+	c := new(big.Int)
+	one := big.NewInt(1)
+	for _, x := range xs {
+		linDecompose(x, one, acc, &order, c)
 	}
-	return mk("-", "", SInt, nil, x)
+	return linBuild(acc, order, c)
+}
+
+func Neg(x *Term) *Term {
+	acc := map[int]*linTerm{}
+	var order []int
+	c := new(big.Int)
+	linDecompose(x, big.NewInt(-1), acc, &order, c)
+	return linBuild(acc, order, c)
 }
 
 func Sub(x, y *Term) *Term {
-	if y.Op == "int" {
-		return Add(x, IntB(new(big.Int).Neg(y.Int)))
-	}
-	if x == y {
-		return IntC(0)
-	}
-	return mk("-", "", SInt, nil, x, y)
+	acc := map[int]*linTerm{}
+	var order []int
+	c := new(big.Int)
+	linDecompose(x, big.NewInt(1), acc, &order, c)
+	linDecompose(y, big.NewInt(-1), acc, &order, c)
+	return linBuild(acc, order, c)
 }
 
 func Mul(xs ...*Term) *Term {
@@ -243,6 +281,14 @@ func Mul(xs ...*Term) *Term {
 	}
 	if len(flat) == 0 {
 		return IntB(c)
+	}
+	if len(flat) == 1 && c.Cmp(big.NewInt(1)) != 0 && (flat[0].Op == "+" || flat[0].Op == "-") {
+		// constant * sum: distribute into the linear normal form
+		acc := map[int]*linTerm{}
+		var order []int
+		k := new(big.Int)
+		linDecompose(flat[0], c, acc, &order, k)
+		return linBuild(acc, order, k)
 	}
 	if c.Cmp(big.NewInt(1)) != 0 {
 		flat = append([]*Term{IntB(c)}, flat...)
